@@ -2705,7 +2705,10 @@ static Type *struct_decl(Token **rest, Token *tok) {
       bits += mem->ty->size * 8;
     }
 
-    if (!ty->is_packed && ty->align < mem->align)
+    // The type of an unnamed bit-field does not affect the alignment
+    // of the struct.
+    bool is_unnamed_bitfield = mem->is_bitfield && !mem->name;
+    if (!ty->is_packed && !is_unnamed_bitfield && ty->align < mem->align)
       ty->align = mem->align;
   }
 
@@ -2725,10 +2728,13 @@ static Type *union_decl(Token **rest, Token *tok) {
   // are already initialized to zero. We need to compute the
   // alignment and the size though.
   for (Member *mem = ty->members; mem; mem = mem->next) {
-    if (ty->align < mem->align)
+    bool is_unnamed_bitfield = mem->is_bitfield && !mem->name;
+    if (!is_unnamed_bitfield && ty->align < mem->align)
       ty->align = mem->align;
-    if (ty->size < mem->ty->size)
-      ty->size = mem->ty->size;
+    // A bit-field occupies only the bytes its width needs.
+    int sz = mem->is_bitfield ? (mem->bit_width + 7) / 8 : mem->ty->size;
+    if (ty->size < sz)
+      ty->size = sz;
   }
   ty->size = align_to(ty->size, ty->align);
   return ty;
